@@ -143,9 +143,22 @@ SPECS = {
         ],
         "explanation": "Theorems on a model whose atomic actions are the critical sections of server/backend/pubsub (Upsert callback, sub.Close, Get, subs.Delete, Delete callback, publisher enqueue, publisher tick, stalled consumer) under arbitrary interleaving with any number of threads: invariant (an object with members is the current map entry and its publisher runs), no lost event (once Subscribe(s) returned, an event whose Publish starts later stays delivered / queued in the open object s belongs to / s closed, through every interleaving in which s has not begun to unsubscribe; one tick delivers it), and the map entry is removed when the last member has gone. Engine, built with the race detector: sequential sessions of whole calls on the real PubSub replayed on the model (ClientIDs and received events after every call), and concurrent stress (4 subscribing/unsubscribing goroutines, 3 publishers, stalled consumers): every (publish, subscription established before it and kept for the delivery bound) pair must be delivered, no panic, no data race, ClientIDs empty at the end.",
         "assumptions": [
-            "PARTIAL: 'within bounded time' is wall-clock: checked on the implementation with a 350 ms bound (publisher window 100 ms), not proved",
+            "PARTIAL: 'within bounded time' is wall-clock: checked on the implementation with a 1.2 s bound (publisher window 100 ms; generous so that a loaded machine raises no false alarm), not proved",
             "the model abstracts the capacity-1 channel and the 100 ms publish timeout into 'delivery succeeds unless the consumer stalled (AStall)'; mutual exclusion of the critical sections themselves (cmap shard lock, subscription mutex) is what the race detector run checks",
             "the correspondence compares whole calls (one interleaving per call); finer interleavings of the real code are exercised by the stress stream only",
+        ],
+    },
+    "C16": {
+        "level": "translation_validation",
+        "corr": ["Locks"],
+        "engines": [
+            {"name": "locks", "race": True, "n": {"quick": 1, "thorough": 1}},
+        ],
+        "explanation": "Theorem: threads taking named reader/writer locks (writer preference) in strictly increasing class order never deadlock - progress in every reachable state, any number of threads, any keys, any schedule; instantiated for any table of handler sequences that follow the order. The table is regenerated on every run by a translator (lockscan: Go AST of server/rpc, packs, documents, clients, projects, revisions; acquisitions in source order, callees and ClusterService calls inlined, asynchronous function literals as separate entry points) and every extracted sequence must satisfy the premise. The pre-repair order of ClusterService.DetachDocument is exhibited as a three-party deadlock in the model. Workload in a race-detector build: 8 SDK clients x 3 documents attach/edit/sync/watch/detach/deactivate in parallel with compaction and housekeeping passes on a real server with tiny snapshot settings: every call returns within 30 s (goroutine dump otherwise), no unexpected error, no race report, convergence and a dense ordered log afterwards.",
+        "assumptions": [
+            "PARTIAL: data-race freedom and memory safety are searched with the race detector, not proved (no executable Gallina model exhibits the Go memory model)",
+            "the translator assumes locks are released with defer (held until the entry point returns: conservative) and resolves callees by package/receiver name; a handler it cannot see is not in the table (the engine fails if fewer than 8 entry points with locks are found)",
+            "lock primitives themselves (pkg/locker, sync.RWMutex) are trusted to implement RW locks with writer preference",
         ],
     },
     "C04": {
